@@ -8,6 +8,10 @@ package c07
 //	eth     one Cosmos tx (EVM extension option) carrying 0..3 MsgEthereumTx; every message is a
 //	        new signed tx (sender, absolute nonce, tx type, chain-id mode, signature tampering,
 //	        action) or the byte-identical resubmission of an earlier message ("dup")
+//	wrap    a Cosmos tx WITHOUT the EVM extension option, signed by the secp256k1 form of key i with an explicit
+//	        sequence, that carries one MsgEthereumTx (new, or the byte-identical copy of an earlier one) bare or nested
+//	        in 1..3 authz.MsgExec{grantee = submitter}, with the unsigned From field empty / forged to the submitter /
+//	        set to the real signer
 //	cosmos  a bank MsgSend signed on the Cosmos path with an explicit sequence, either with the
 //	        secp256k1 form of key i (a different account than the EVM one) or with the
 //	        eth_secp256k1 key itself for the EVM account
@@ -32,6 +36,7 @@ import (
 	"github.com/cosmos/cosmos-sdk/crypto/keys/secp256k1"
 	cryptotypes "github.com/cosmos/cosmos-sdk/crypto/types"
 	"github.com/cosmos/cosmos-sdk/testutil/sims"
+	"github.com/cosmos/cosmos-sdk/x/authz"
 	sdk "github.com/cosmos/cosmos-sdk/types"
 	bank "github.com/cosmos/cosmos-sdk/x/bank/types"
 	gethcommon "github.com/ethereum/go-ethereum/common"
@@ -69,6 +74,8 @@ type c07Tx struct {
 	Q      uint64   `json:"q"`      // cosmos: sequence signed
 	EthKey bool     `json:"ethkey"` // cosmos: sign with the eth_secp256k1 key for the EVM account
 	Bad    bool     `json:"bad"`    // cosmos: inner message fails (sends more than the balance)
+	Depth  int      `json:"depth"`  // wrap: 0 = the MsgEthereumTx itself inside an ordinary Cosmos tx, n = nested in n authz.MsgExec
+	Forge  string   `json:"forge"`  // wrap: unsigned From field of the wrapped message: "" | self (the submitter) | victim (the real signer)
 }
 
 type c07Der struct {
@@ -79,6 +86,7 @@ type c07Der struct {
 	Nonce  uint64 `json:"nonce"`
 	Exec   string `json:"exec"`   // ok | vmerr | msgerr  (what the action does once executed)
 	Create bool   `json:"create"` // deploys a contract when executed successfully
+	VBOk   bool   `json:"vbok"`   // the message passes its stateless ValidateBasic (pure function of the message)
 }
 
 type c07TxObs struct {
@@ -402,6 +410,51 @@ func (r *c07Run) deliverCosmos(tx c07Tx) abci.ResponseDeliverTx {
 	return c.App.DeliverTx(abci.RequestDeliverTx{Tx: bz})
 }
 
+// deliverWrapped submits inner inside an ordinary Cosmos tx of the submitter (no EVM extension option).
+func (r *c07Run) deliverWrapped(tx c07Tx, inner *evm.MsgEthereumTx) (res abci.ResponseDeliverTx) {
+	c := r.w.c
+	ctx := c.Ctx()
+	priv := r.k.cosmos[tx.Key%nKeys]
+	addr := sdk.AccAddress(priv.PubKey().Address())
+	var accNum uint64
+	if acc := c.App.AccountKeeper.GetAccount(ctx, addr); acc != nil {
+		accNum = acc.GetAccountNumber()
+	}
+	m := *inner
+	switch tx.Forge {
+	case "self":
+		m.From = gethcommon.BytesToAddress(addr.Bytes()).Hex()
+	case "victim":
+		if a, ok := rawSigner(m.AsTransaction()); ok {
+			m.From = a.Hex()
+		}
+	default:
+		m.From = ""
+	}
+	var msg sdk.Msg = &m
+	for i := 0; i < tx.Depth; i++ {
+		e := authz.NewMsgExec(addr, []sdk.Msg{msg})
+		msg = &e
+	}
+	if p := Recover(func() {
+		stx, err := sims.GenSignedMockTx(rand.New(rand.NewSource(1)), c.TxCfg, []sdk.Msg{msg}, Unibi(3_000_000), 3_000_000, ctx.ChainID(),
+			[]uint64{accNum}, []uint64{tx.Q}, priv)
+		if err != nil {
+			res = abci.ResponseDeliverTx{Code: 9999, Log: "build: " + err.Error()}
+			return
+		}
+		bz, err := c.TxCfg.TxEncoder()(stx)
+		if err != nil {
+			res = abci.ResponseDeliverTx{Code: 9999, Log: "encode: " + err.Error()}
+			return
+		}
+		res = c.App.DeliverTx(abci.RequestDeliverTx{Tx: bz})
+	}); p != "" {
+		res = abci.ResponseDeliverTx{Code: 9998, Log: "panic: " + p}
+	}
+	return res
+}
+
 func (w *c07World) runCase(t *testing.T, blocks [][]c07Tx) ([][][]c07Der, [][]c07TxObs, string) {
 	r := &c07Run{w: w, k: w.freshKeys(t), byHash: map[string]int{}, ids: map[gethcommon.Address]int{}}
 	for i, a := range r.k.eth {
@@ -463,6 +516,9 @@ func (w *c07World) runCase(t *testing.T, blocks [][]c07Tx) ([][][]c07Der, [][]c0
 						rawAddr, hasSigner = a, true
 					}
 					d.Exec, d.Create = execClass(spec.Act)
+					vb := *msg
+					vb.From = ""
+					d.VBOk = (&vb).ValidateBasic() == nil
 					td = append(td, d)
 					cp := *msg
 					txMsgs = append(txMsgs, &cp)
@@ -496,7 +552,11 @@ func (w *c07World) runCase(t *testing.T, blocks [][]c07Tx) ([][][]c07Der, [][]c0
 						remaining[sm.addr].Sub(remaining[sm.addr], sm.value)
 					}
 				}
-				res = c.DeliverEth(txMsgs...)
+				if tx.Kind == "wrap" && len(txMsgs) == 1 {
+					res = r.deliverWrapped(tx, txMsgs[0])
+				} else {
+					res = c.DeliverEth(txMsgs...)
+				}
 			}
 			o := c07TxObs{Code: res.Code, Exec: []int{}, Created: [][2]int{}}
 			o.Accepted = res.Code == 0
@@ -582,6 +642,22 @@ func genC07Case(r *Rng) [][]c07Tx {
 		for i := 0; i < nt; i++ {
 			if r.Chance(1, 16) {
 				blk = append(blk, c07Tx{Kind: "fund", Key: r.Intn(nFunded)})
+				continue
+			}
+			if len(history) > 0 && r.Chance(1, 8) {
+				// an earlier message (usually an executed one) submitted again by somebody else, wrapped in an ordinary Cosmos tx
+				k := r.Intn(nFunded)
+				tx := c07Tx{Kind: "wrap", Key: k, Q: cexp[k], Depth: r.Pick(1, 2, 4, 2), Forge: []string{"", "self", "self", "victim"}[r.Intn(4)],
+					Msgs: []c07Msg{{Dup: history[r.Intn(len(history))]}}}
+				if r.Chance(1, 8) {
+					tx.Q++
+				}
+				if tx.Depth >= 2 && tx.Q == cexp[k] {
+					cexp[k]++
+				}
+				history = append(history, nmsg)
+				nmsg++
+				blk = append(blk, tx)
 				continue
 			}
 			if r.Chance(1, 7) {
@@ -691,6 +767,13 @@ func genC07Case(r *Rng) [][]c07Tx {
 		for i := 0; i < nmsg && i < 14; i++ {
 			blk = append(blk, c07Tx{Kind: "eth", Msgs: []c07Msg{{Dup: i}}})
 		}
+		if r.Chance(1, 2) { // … and once more through nested authz.MsgExec by a stranger who forges From
+			k := r.Intn(nFunded)
+			for i := 0; i < nmsg && i < 6; i++ {
+				blk = append(blk, c07Tx{Kind: "wrap", Key: k, Q: cexp[k], Depth: 2 + r.Intn(2), Forge: "self", Msgs: []c07Msg{{Dup: i}}})
+				cexp[k]++
+			}
+		}
 		blocks = append(blocks, blk)
 	}
 	return blocks
@@ -747,6 +830,13 @@ func TestC07(t *testing.T) {
 	// before it touches the nonce), for a creation, a call and a plain transfer; then everything resubmitted
 	run([][]c07Tx{{e(m(0, 0, "drain", 0), m(0, 1, "create_val", 0))}, {e(dup(1)), {Kind: "fund", Key: 0}, e(dup(1)), e(dup(0)), e(m(0, 2, "create_ok", 1))},
 		{e(m(1, 0, "create_val", 0), m(1, 1, "call_val", 0), m(1, 2, "drain", 0))}, {e(dup(6)), e(dup(7)), e(dup(8)), e(m(1, 3, "transfer", 2))}})
+	// … an executed tx submitted again by a stranger inside ordinary Cosmos txs: bare, and nested in 1..3 authz.MsgExec,
+	// with the unsigned From field empty, forged to the stranger, set to the victim; then the normal path again
+	wr := func(key int, q uint64, depth int, forge string, dupOf int) c07Tx {
+		return c07Tx{Kind: "wrap", Key: key, Q: q, Depth: depth, Forge: forge, Msgs: []c07Msg{{Dup: dupOf}}}
+	}
+	run([][]c07Tx{{e(m(0, 0, "transfer", 1)), e(m(0, 1, "call_ok", 2))}, {wr(1, 0, 0, "self", 0), wr(1, 0, 1, "self", 0), wr(1, 0, 2, "self", 0), wr(1, 1, 3, "self", 1),
+		wr(1, 2, 2, "", 0), wr(1, 3, 2, "victim", 0)}, {e(dup(1)), e(dup(0)), e(m(0, 2, "transfer", 3))}})
 	// … precompile calls around a reverted frame (StateDB flushes the sender with its temporarily reset nonce)
 	run([][]c07Tx{{e(m(0, 0, "pre_revert", 1))}, {e(dup(0)), e(m(0, 1, "pre_revert", 2), m(0, 2, "transfer", 3))}, {e(dup(0)), e(dup(2)), e(dup(3)), e(m(0, 3, "call_ok", 4))}})
 	rng := NewRng(cfg.Seed)
